@@ -7,7 +7,8 @@ import runner
 
 TOKENS = ["RD"]
 RULE = (" readers (RD ops): the reader programs of Relic.Model.ReaderProgs (DigestPE with and without page hashes, cabfile.Digest, "
-        "DigestPowershell, DigestXapTar and DigestMsiTar over plain tar headers, csblob.hashPages, the ar walk of signdeb.Sign) and the real digesters run on the same scripted reader (exact chunk list incl. empty reads, io.EOF or an "
+        "DigestPowershell, DigestXapTar and DigestMsiTar over plain tar headers, csblob.hashPages, the ar walk of signdeb.Sign, and "
+        "zipslicer.ReadZipTar with scripted ReadAt calls on the streamReaderAt it builds: hook Directory.VerifReaderAt) and the real digesters run on the same scripted reader (exact chunk list incl. empty reads, io.EOF or an "
         "injected error at the end, optionally delivered with the last bytes): generated PE images (sections around the 4096/8192 page "
         "size, signed, with trailing bytes, headers beyond a page, e_lfanew < 64, mutated), cabinets (reserve areas, signed, 1 and 3 "
         "bytes of garbage), scripts (UTF-8/UTF-16, lines of 4094..4097 and 8192 bytes around bufio's buffer, with signature block), each "
@@ -28,14 +29,15 @@ ASSUMPTIONS = ["streams are finite chunk lists: a reader that answers `0, nil` f
                "bufio.Reader: fewer than 100 consecutive empty reads (Stream.NoStall); beyond that Peek/ReadString return io.ErrNoProgress and "
                "DigestPowershell may mis-detect UTF-16 (bufio_stall_not_split_independent; ops with stall=1 are not judged)",
                "sink writes (hash.Hash, bytes.Buffer) never fail",
-               "reader programs model the code after fixes a618e41, 7a9b915, af1f153 (errors where the PE model records the original panics)"]
-UNPROVED = ["Relic.Props.C09.cab_reader_split_independent_full (false on the unchanged tree: cab_reader_split_independent_full_false, finding "
-            "F-rd-cab-tail; proved over Plain streams: cab_reader_split_independent_partial; with the proposed fix for all streams: "
-            "cab_fixed_reader_split_independent)",
+               "reader programs model the code after fixes a618e41, 7a9b915, af1f153 (errors where the PE model records the original panics) "
+               "and after fix F-rd-cab-tail (cabfile.Digest drains the reader; the original one-byte probe is kept as digestCabOrig with "
+               "cab_reader_split_dependent)"]
+UNPROVED = [
             "xap_reader_split_independent_full / msi_reader_split_independent_full (no Lean statement; proved for plain tar headers: "
             "xap/msi_reader_split_independent_partial; PAX/GNU records, sparse members, checksums and the refinement to the member-list models open)",
-            "jar_reader_split_independent_full (no Lean statement; JAR, APK, AppX over ReadZipTar: proved at the streamReaderAt boundary for every "
-            "client: readAt_client_split_independent; composition with the tar framing and flate open)",
+            "jar_reader_refines_model_full (no Lean statement; JAR, APK, AppX, VSIX over ReadZipTar are split independent for every consumer of "
+            "the io.ReaderAt: jar_reader_split_independent, covering tar framing + zipTarReader + streamReaderAt; naming flate / CRC / manifest "
+            "logic as one consumer and refining it to Relic.Model.Jar / Appx / ApkSign is open)",
             "deb_reader_split_independent_full (no Lean statement; member walk proved: deb_reader_split_independent_partial; the control-tarball "
             "parser behind the io.Pipe open)",
             "macho_reader_split_independent_full (no Lean statement; page hashing proved: macho_pages_reader_split_independent; scanFile and the "
@@ -99,10 +101,10 @@ def canon_model(op, mres):
 
 
 THM = {"pe": "Relic.Props.C09.pe_reader_split_independent", "pepage": "Relic.Props.C09.pe_reader_split_independent",
-       "cab": "Relic.Props.C09.cab_reader_split_independent_partial", "ps": "Relic.Props.C09.ps_reader_split_independent",
+       "cab": "Relic.Props.C09.cab_reader_split_independent", "ps": "Relic.Props.C09.ps_reader_split_independent",
        "xap": "Relic.Props.C09.xap_reader_split_independent_partial", "msi": "Relic.Props.C09.msi_reader_split_independent_partial",
        "msiex": "Relic.Props.C09.msi_reader_split_independent_partial",
-       "hashpages": "Relic.Props.C09.macho_pages_reader_split_independent", "deb": "Relic.Props.C09.deb_reader_split_independent_partial"}
+       "hashpages": "Relic.Props.C09.macho_pages_reader_split_independent", "ziptar": "Relic.Props.C09.jar_reader_split_independent", "deb": "Relic.Props.C09.deb_reader_split_independent_partial"}
 
 
 def equiv(op, il, mres):
@@ -158,13 +160,14 @@ def predicate(op, il, mres, tag):
         if il != "ok same":
             thm = {"frag": "Relic.Props.C09.run_split_independent (digesters without reader program: implementation oracle)",
                    "e2e": "stream_digest_eq_file_digest (implementation oracle: relic's verifier on the patched file)",
-                   "http": "Relic.Props.C09.cab_reader_split_independent_full"}[k]
+                   "http": "Relic.Props.C09.cab_reader_split_independent"}[k]
             return (thm, "ok same", il)
     return None
 
 
 def matches_known(kn, op, il, mres, tag):
-    """F-rd-cab-tail: cabfile.Digest's end-of-input probe; identity = cab digester + a delivery that is not Plain where the
+    """F-rd-cab-tail (repaired; the entry is `fixed`, so this matcher is only used if the entry is set back to `known`):
+    cabfile.Digest's end-of-input probe; identity = cab digester + a delivery that is not Plain where the
     probe happens (empty read pending, or the terminal error delivered with data) + only the trailing verdict differs"""
     ident = kn.get("identity", {})
     if ident.get("site") != "cabfile.Digest:end-of-input probe r.Read(make([]byte, 1))":
@@ -209,5 +212,5 @@ def install(g):
     g["UNPROVED"] = [u for u in g.get("UNPROVED", []) if not u.startswith("pe_reader_split_independent")] + UNPROVED
     g["TIE"] = g.get("TIE", "") + "+readers(gen+corr)"
     g["TIE_THEOREM"] = g.get("TIE_THEOREM", "") + (" / Relic.Props.C09.run_split_independent, pe_reader_split_independent, "
-                                                   "cab_reader_split_independent_partial, ps_reader_split_independent, readers_generated_ok "
+                                                   "cab_reader_split_independent, ps_reader_split_independent, readers_generated_ok "
                                                    "(Relic.Model.Reader / ReaderProgs vs lib/authenticode, lib/cabfile)")
